@@ -188,6 +188,15 @@ func siteExists(fn *ssa.Function, site string) bool {
 	if len(w) == 0 {
 		return false
 	}
+	if w[0] == "in" && len(w) >= 3 {
+		// a program point of a closure defined in fn
+		for _, af := range fn.AnonFuncs {
+			if funcKey(af) == w[1] {
+				return siteExists(af, strings.Join(w[2:], " "))
+			}
+		}
+		return false
+	}
 	if w[0] == "after" {
 		w = w[1:]
 	}
@@ -232,7 +241,15 @@ func siteExists(fn *ssa.Function, site string) bool {
 
 // runSite executes the statement-level clauses attached to `site` of fn
 func (s *state) runSite(fn *ssa.Function, site string, pos token.Pos, rs []Val) {
+	outer := false
 	fc := s.u.eng.contractFor(fn)
+	if fc == nil && fn != s.u.fn && fn.Parent() != nil && s.u.ct != nil && rs == nil {
+		// a closure without a contract of its own, executed inline: the enclosing function's
+		// contract may attach clauses to its program points as `at in <closure> <site>`
+		fc = s.u.ct
+		site = "in " + funcKey(fn) + " " + site
+		outer = true
+	}
 	if fc == nil {
 		return
 	}
@@ -244,6 +261,9 @@ func (s *state) runSite(fn *ssa.Function, site string, pos token.Pos, rs []Val) 
 		e := s.contractEnv(nil, fn, nil, nil)
 		e.useNames = true
 		e.pkg = fn.Pkg.Pkg
+		if outer {
+			e.old = s.old
+		}
 		if fn == s.u.fn {
 			// parameters keep their entry meaning only via old(); names give current values
 			e.old = s.old
